@@ -39,7 +39,7 @@
 From Coq Require Import NArith ZArith List Bool.
 From XV Require Import Base.Str Base.Eqb Base.PyInt Spec.XmlNs Model.Bind Model.WriterBridge Spec.Fits Model.RoundtripCorr
   Proofs.RoundtripParse Proofs.RoundtripMain Proofs.RoundtripWitness Proofs.RoundtripExamples
-  Model.Writer Proofs.RoundtripGen Proofs.RoundtripText.
+  Model.Writer Proofs.RoundtripGen Proofs.RoundtripTree Proofs.RoundtripText.
 From XV Require Model.EventGen Model.Parser Model.ParserCorr.
 Import ListNotations.
 
@@ -106,7 +106,9 @@ Theorem C01_document_parses_S4 : forall cfg c u ok ign n cls o t' m k,
   conv_roundtrips c u ok -> nodefault_free cfg = true ->
   wf_model u cls = true -> fits c u ok py_isspace n cls o = true -> noq o = true -> exact_classes u n cls o = true ->
   nomaps_u u = true ->                      (* `doc_says` does not fix the attribute order *)
-  wf_doc t' = true -> doc_says (eobj c u ign n None o) (strip_indent t') = true ->
+  wf_doc t' = true ->
+  (* etop = the expected tree: the element of the instance; an empty instance of a nillable class keeps xsi:nil="true" *)
+  doc_says (etop c u ign n o) (strip_indent t') = true ->
   Parser.parse_n k cfg c u (Some cls) (pump_doc m t' None) = Parser.Ok o [].
 Proof. intros. eapply document_parses; try eassumption. reflexivity. Qed.
 Print Assumptions C01_document_parses_S4.
@@ -315,3 +317,32 @@ Theorem C01_any_attribute_prefix_refuted :
   /\ (match Parser.parse cfg_strict conv_c05 u_mapq (Some root_mapq) pevs_mapq with Parser.Ok _ [] => true | _ => false end) = true.
 Proof. exact any_attribute_prefix_refuted. Qed.
 Print Assumptions C01_any_attribute_prefix_refuted.
+
+(* ---- empty instances of nillable classes: the element keeps xsi:nil="true" (the instance has no content) and
+   ElementNode.bind builds the instance from its attributes all the same; covered by the theorems above (guard
+   clause `strict_empty && nil_free` of fits).  The guards are inhabited by such instances, on metadata and handler
+   events exported from the real code: *)
+Theorem C01_nil_kept_example :
+  wf_model u_nilk root_nilk = true
+  /\ fits conv_c05 u_nilk ok_c05 py_isspace 2 root_nilk o_nilk = true
+  /\ (match expected_of conv_c05 (EventGen.generate false conv_c05 u_nilk o_nilk) with
+      | Some e => reads_b true e pevs_nilk | None => false end) = true
+  /\ Parser.parse cfg_strict conv_c05 u_nilk (Some root_nilk) pevs_nilk = Parser.Ok o_nilk []
+  /\ Parser.parse cfg_strict conv_c05 u_nilk (Some root_nilk)
+       (pump (expected_of conv_c05 (EventGen.generate false conv_c05 u_nilk o_nilk))) = Parser.Ok o_nilk [].
+Proof. exact nil_kept_example. Qed.
+Print Assumptions C01_nil_kept_example.
+
+(* clause `strict_empty`, Text part (Text variant of known finding C01-F1, found while proving this slice): the Text
+   field of an empty instance of a nillable class must hold None.  R(l=L(v=[], x='3')) with v a token list is
+   written <l x="3" xsi:nil="true"/>; under xsi:nil ElementNode.bind_text stores None and the instance comes back
+   as L(v=None, x='3') *)
+Theorem C01_nil_text_tokens_refuted :
+  wf_model u_nilk root_nilk = true
+  /\ fits conv_c05 u_nilk ok_c05 py_isspace 2 root_nilk o_nilk_tok = false
+  /\ (match expected_of conv_c05 (EventGen.generate false conv_c05 u_nilk o_nilk_tok) with
+      | Some e => reads_b true e pevs_nilk_tok | None => false end) = true
+  /\ ParserCorr.outcome_eqb (Parser.parse cfg_strict conv_c05 u_nilk (Some root_nilk) pevs_nilk_tok) (Parser.Ok o_nilk_tok []) = false
+  /\ (match Parser.parse cfg_strict conv_c05 u_nilk (Some root_nilk) pevs_nilk_tok with Parser.Ok _ [] => true | _ => false end) = true.
+Proof. exact nil_text_tokens_refuted. Qed.
+Print Assumptions C01_nil_text_tokens_refuted.
